@@ -8,4 +8,5 @@ python3 tools/extract_constants.py
 cp /repo/Cargo.lock harness/Cargo.lock
 cp /repo/rust-toolchain harness/rust-toolchain
 (cd harness && cargo build --offline)
+bash harness/cpp/build.sh || echo "C++ harness build failed (C17 will report it)"
 echo setup-ok
